@@ -14,9 +14,10 @@ lock = threading.Lock()
 res = json.load(open(OUT)) if os.path.exists(OUT) else {}
 
 
-def run(sid, only):
+def run(sid, only, prop=None):
     env = dict(os.environ, VERIF_SEED=vseed)
-    prop = sid.split("-")[0]
+    if prop:
+        env["PROP"] = prop      # a change recorded under one property and detected by another's check
     cmd = [HOME + "/seedrun.sh", sid] + (["--only", "^%s$" % only] if only else [])
     for attempt in range(3):
         p = subprocess.run(cmd, env=env, stdout=subprocess.PIPE, stderr=subprocess.STDOUT, text=True)
@@ -28,6 +29,8 @@ def run(sid, only):
 def one(sid):
     m = json.load(open(HOME + "/seeded/%s/meta.json" % sid))
     prop = m["property"]
+    if prop not in m.get("detected_by", [prop]):
+        prop = m["detected_by"][0]
     v = m["checks"].get(prop, {})
     test = None
     if v.get("violation_lines"):
@@ -37,11 +40,11 @@ def one(sid):
             test = t
     out = None
     if test:
-        rc = run(sid, test)
+        rc = run(sid, test, prop)
         if rc == 1:
             out = "test:" + test
     if out is None:
-        rc = run(sid, None)
+        rc = run(sid, None, prop)
         out = "full" if rc == 1 else ("MISSED" if rc == 0 else "rc=%d" % rc)
     with lock:
         res.setdefault(sid, {})[vseed] = out
